@@ -12,7 +12,7 @@ from harness.core import Ctx, VERIF
 from harness.util import rel_close
 
 RULE = ("mixtures of 1..6 distinct substances (pool of real formulas + random 1..3-element formulas over the live "
-        "periodic table) with log-uniform positive proportions in [1e-3,1e3], every norm_type (NUMBER, "
+        "periodic table) with positive proportions over many orders of magnitude (mostly [1e-3,1e3], traces down to 1e-12, bulk up to 1e6; scale factors 1e-9 … 1e9), every norm_type (NUMBER, "
         "NUMBER_FRACTION, MASS_FRACTION), natural / most-abundant, built from a dict or from the '<..>' string; "
         "plus Substance composites (elements with counts, NUMBER mode); the avg row always and the components= selection on 40 % of the cases (impl vs model; selected rows must keep their values); scaling and both dualities on 40 % (quick) / all (thorough) of the cases; plus histories (a + b, add() on the sum, k * sum, add() on an operand; every live material re-read after every step); corpus first. non-trivial = at least two "
         "components with different masses; distinct = canonical JSON of (kind, mode, natural, components)")
@@ -71,6 +71,8 @@ def rand_prop(rng):
     r = rng.random()
     if r > 0.94:
         return math.exp(rng.uniform(math.log(1e-12), math.log(1e-6)))     # trace component
+    if r > 0.90:
+        return math.exp(rng.uniform(math.log(1e3), math.log(1e6)))        # bulk given in large numbers
     if r < 0.15:
         return float(rng.randint(1, 9))
     if r < 0.3:
@@ -340,35 +342,30 @@ def history_stream(ctx, nat, allsym, n):
         ctx.case(["history", replay], True)
         ctx.count("history")
 
-        def merged(x, y):
-            out = [list(e) for e in x]
-            for f, p in y:
-                for e in out:
-                    if e[0] == f:
-                        e[1] += p
-                        break
-                else:
-                    out.append([f, p])
-            return out
+        # the proportions every live material must hold come from the Lean object-store model
+        fr = lambda l: [[f, frac(p)] for f, p in l]
+        ops = [["new", fr(A)], ["new", fr(B)], ["plus", 0, 1], ["add", 2, subs[3], frac(padd)],
+               ["mul", 2, frac(k)], ["add", 1, subs[4], frac(padd)]]
+        r = ctx.driver.ask({"k": "ops", "ops": ops})
+        if "ok" not in r:
+            ctx.disagreement("history", replay, "driver error %s" % r)
+            continue
+        snaps = [[[[f, float(unfrac(v))] for f, v in obj] for obj in snap] for snap in r["ok"]]
         try:
             nt = getattr(Norm, mode)
             a = Material({f: p for f, p in A}, natural=natural, norm_type=nt)
             b = Material({f: p for f, p in B}, natural=natural, norm_type=nt)
-            live = [("a", a, A), ("b", b, B)]
-            mix = a + b
-            live.append(("a+b", mix, merged(A, B)))
-            for name, obj, want in live:
-                entries.append(("sum:" + name, replay, want, mode, snapshot(obj, mode)))
-            mix.add(subs[3], padd)                      # only the mixture is enriched
-            live[2] = ("(a+b).add", mix, merged(merged(A, B), [[subs[3], padd]]))
-            for name, obj, want in live:
-                entries.append(("add:" + name, replay, want, mode, snapshot(obj, mode)))
-            km = k * mix
-            live.append(("k*(a+b)", km, [[f, p * k] for f, p in live[2][2]]))
-            b.add(subs[4], padd)                        # an operand is modified afterwards
-            live[1] = ("b.add", b, merged(B, [[subs[4], padd]]))
-            for name, obj, want in live:
-                entries.append(("scale:" + name, replay, want, mode, snapshot(obj, mode)))
+            live = [a, b]
+            live.append(a + b)
+            for idx, obj in enumerate(live):
+                entries.append(("sum:#%d" % idx, replay, snaps[2][idx], mode, snapshot(obj, mode)))
+            live[2].add(subs[3], padd)                  # only the mixture is enriched
+            for idx, obj in enumerate(live):
+                entries.append(("add:#%d" % idx, replay, snaps[3][idx], mode, snapshot(obj, mode)))
+            live.append(k * live[2])
+            live[1].add(subs[4], padd)                  # an operand is modified afterwards
+            for idx, obj in enumerate(live):
+                entries.append(("scale:#%d" % idx, replay, snaps[5][idx], mode, snapshot(obj, mode)))
         except Exception as e:  # noqa
             ctx.violation("history:%s:error" % mode, "combining valid materials raises %r  [%s]" % (e, json.dumps(replay)[:300]), replay)
     res = ctx.driver.ask_many([request(e[4]) for e in entries])
@@ -391,7 +388,7 @@ def correspond(ctx: Ctx):
         c = gen_case(ctx.rng, nat, allsym)
         if ctx.rng.random() < 0.15:
             c["quantity"] = True
-        c["k"] = ctx.rng.choice([2.0, 0.5, 7.25, 1e3, 1e-3, math.exp(ctx.rng.uniform(-5, 5))])
+        c["k"] = ctx.rng.choice([2.0, 0.5, 7.25, 100.0, 0.01, 1e3, 1e-3, 1e6, 1e-6, 1e9, 1e-9, math.exp(ctx.rng.uniform(-5, 5))])
         # scaling + both dualities rebuild the material three times: done on a random 40 % (all in thorough)
         c["relational"] = thorough or ctx.rng.random() < 0.4
         if ctx.rng.random() < 0.4:
